@@ -155,11 +155,26 @@ func diffHelpers(c *Ctx) {
 						}
 						// the absence test mentions `against` (directly or through an index built from it)
 						text := ""
-						for _, y := range enclosing(d.fd.Body, as) {
+						chain := enclosing(d.fd.Body, as)
+						for i, y := range chain {
 							if ifs, ok := y.(*ast.IfStmt); ok {
 								text += exprText(c.P.Fset, ifs.Cond)
 								if ifs.Init != nil {
 									text += exprText(c.P.Fset, ifs.Init)
+								}
+							}
+							// early-exit guards ahead of the statement in the same loop body
+							if blk, ok := y.(*ast.BlockStmt); ok && i+1 < len(chain) {
+								for _, st := range blk.List {
+									if st == chain[i+1] {
+										break
+									}
+									if ifs, ok := st.(*ast.IfStmt); ok && terminates(ifs.Body) {
+										text += exprText(c.P.Fset, ifs.Cond)
+										if ifs.Init != nil {
+											text += exprText(c.P.Fset, ifs.Init)
+										}
+									}
 								}
 							}
 						}
@@ -206,7 +221,7 @@ func diffHelpers(c *Ctx) {
 	if d := c.decl(R, "sbom.diffMap"); d != nil {
 		cmp := false
 		ast.Inspect(d.fd.Body, func(x ast.Node) bool {
-			if be, ok := x.(*ast.BinaryExpr); ok && be.Op == token.NEQ {
+			if be, ok := x.(*ast.BinaryExpr); ok && (be.Op == token.NEQ || be.Op == token.EQL) {
 				l, r := objOf(d.pkg, be.X), objOf(d.pkg, be.Y)
 				if l != nil && r != nil && types.Identical(l.Type(), r.Type()) {
 					cmp = true
